@@ -78,6 +78,41 @@ class EqRec(Rec):
     __hash__ = None
 
 
+class LenRec(Rec):
+    """A falsy system: what a System subclass that defines __len__ (over its own records, say) is while it holds nothing.
+    Presence in the scheduler must never be decided by an object's truth value."""
+
+    def __len__(self):
+        return 0
+
+
+class BoolRec(Rec):
+    def __bool__(self):
+        return False
+
+
+def gen_flavour(rng):
+    """Scenario fields deciding the class of the recording systems (drawn last, so older fields keep their stream)."""
+    r = rng.random()
+    if r < 0.12:
+        return {"value_eq": True}
+    if r < 0.24:
+        return {"value_eq": False, "falsy": rng.choice(["len", "bool"])}
+    return {"value_eq": False}
+
+
+def rec_class(sc, ctx=None):
+    if sc.get("value_eq"):
+        if ctx is not None:
+            ctx.probe("systems_with_value_equality")
+        return EqRec
+    if sc.get("falsy"):
+        if ctx is not None:
+            ctx.probe("falsy_systems")
+        return LenRec if sc["falsy"] == "len" else BoolRec
+    return Rec
+
+
 def gen_window(rng, horizon, always=0.7):
     """Activation window; most systems are always on so that the state grows."""
     if rng.random() < always:
